@@ -9,6 +9,7 @@ PROBES = [("RangeStmt.asis.D16.cfg", "Sound", "factor >= 2^(W-1) not refused (D1
           ("RangeStmt.asis.D19.cfg", "Sound", "queried factor wraps in ProvesStatement (D19)"),
           ("RangeStmt.asis.D6.cfg", "AttachSound", "range proofs off the hidden indices not refused (D6)"),
           ("RangeStmt.asis.D6p.cfg", "NoPanic", "range proof on a disclosed index below the largest hidden one panics (D6)"),
+          ("RangeStmt.asis.D23.cfg", "AttachSound", "structures memoised in a ProofD object survive a change of the carried range proofs (D23)"),
           ("RangeStmt.asis.M.cfg", "AttachSound", "m-response of the range proof not overridden"),
           ("RangeStmt.vacuity.cfg", "NothingAccepted", "some proof is accepted"),
           ("RangeStmt.vacuity2.cfg", "OnlyHonestAccepted", "a benign alteration (l_d) is accepted")]
@@ -39,7 +40,8 @@ def run(chk):
                 "for every descriptor passing the transcribed ExtractStructure checks and every m for which its own statement is established, "
                 "Proven(d) holds for m and Proves(d,q) => Holds(q,m) for every query q (all word values as factors); (b) attachment adversary "
                 "(move to hidden/disclosed/non-existent/beyond-largest/negative index, duplicate, drop, reorder, transplant between credentials and "
-                "inside one ProofList, cheating prover hashing a range proof for another value, every single-field alteration): invariants AttachSound, NoPanic. "
+                "inside one ProofList, cheating prover hashing a range proof for another value, every single-field alteration, the same on a ProofD object "
+                "that verified the honest proof before - altered in place or re-used for decoding): invariants AttachSound, NoPanic. "
                 "Replay: the complete Proves/Proven/ExtractOK tables are run through rangeproof.Proof.ProvesStatement/ProvenStatement/ExtractStructure "
                 "(64-bit values substituted for toy word values) and judged by integer semantics for every m of the box; every attachment case is "
                 "materialised on real credentials (1024-bit) and real ProofDs and must get the specification's verdict from ProofD.Verify and "
